@@ -1028,6 +1028,7 @@ func (w *World) checkWorking() *Violation {
 		}
 	}
 	_, absent := probeKeys(w.WKV)
+	sortedW := sortedKeys(w.WKV)
 	for _, k := range absent {
 		g, err := tr.Get([]byte(k))
 		if err != nil || g != nil {
@@ -1037,7 +1038,7 @@ func (w *World) checkWorking() *Violation {
 			return w.viol("working.has_absent", "working Has(absent %q)=%v,%v", k, has, err)
 		}
 		idx, v, err := tr.GetWithIndex([]byte(k))
-		wantIdx := int64(sort.SearchStrings(sortedKeys(w.WKV), k))
+		wantIdx := int64(sort.SearchStrings(sortedW, k))
 		if err != nil || v != nil || idx != wantIdx {
 			return w.viol("working.getwithindex_absent", "working GetWithIndex(absent %q)=%d,%q,%v want %d,nil", k, idx, v, err, wantIdx)
 		}
@@ -1260,6 +1261,7 @@ func (w *World) checkVersionReads(tr *iavl.MutableTree, it *iavl.ImmutableTree, 
 		}
 	}
 	_, absent := probeKeys(vs.KV)
+	sortedV := sortedKeys(vs.KV)
 	for _, k := range absent {
 		g, err := it.Get([]byte(k))
 		if err != nil || g != nil {
@@ -1273,7 +1275,7 @@ func (w *World) checkVersionReads(tr *iavl.MutableTree, it *iavl.ImmutableTree, 
 			return w.viol(obs("version.has_absent"), "version %d Has(absent %q)=%v,%v", v, k, has, err)
 		}
 		idx, val, err := it.GetWithIndex([]byte(k))
-		wantIdx := int64(sort.SearchStrings(sortedKeys(vs.KV), k))
+		wantIdx := int64(sort.SearchStrings(sortedV, k))
 		if err != nil || val != nil || idx != wantIdx {
 			return w.viol(obs("version.getwithindex_absent"), "version %d GetWithIndex(absent %q)=%d,%q,%v want %d", v, k, idx, val, err, wantIdx)
 		}
